@@ -77,6 +77,15 @@ func runC12(e *Env) error {
 	lap("contributions large")
 	g.genSyncMessages(lc, lheads[1:])
 	lap("sync messages large")
+	// world "few": 16 validators and a sync committee of 32: every validator holds about two seats, most of them in
+	// two different subcommittees
+	few := NewWorld(WorldKnobs{Name: "few", Validators: 16, TargetCommittee: 4, SyncCommittee: 32, AltairEpoch: 1, ShardCommittee: 1, MaxCommitteeSize: 16}, c)
+	fc := buildChain(few, 14)
+	lap("chain few")
+	fheads := []*Node{fc.Tip()}
+	g.genSyncMessages(fc, fheads)
+	g.genContributions(fc, fheads)
+	lap("sync few")
 	if !e.Quick() {
 		// world "mid": 128 validators, four committees of four per slot, altair from epoch 1; every topic again
 		mid := NewWorld(WorldKnobs{Name: "mid", Validators: 128, TargetCommittee: 4, SyncCommittee: 32, AltairEpoch: 1, ShardCommittee: 2, MaxCommitteeSize: 16}, c)
